@@ -220,6 +220,20 @@ pub fn decorated_sources(cfg: &Config, o: &Opts) -> Sources {
     out
 }
 
+/// The announcement a stream makes about itself (its `ParsingFinished` event), if any.
+pub fn announced(stream: &[Ev]) -> serde_json::Value {
+    stream
+        .iter()
+        .find_map(|e| match e {
+            Ev::ParsingFinished { features, rules, scenarios, steps, parser_errors } => Some(json!({
+                "features": features, "rules": rules, "scenarios": scenarios, "steps": steps,
+                "parser_errors": parser_errors,
+            })),
+            _ => None,
+        })
+        .unwrap_or(serde_json::Value::Null)
+}
+
 /// The facts of the stream (what the reports must state).
 pub fn facts(src: &Sources, stream: &[Ev]) -> Vec<serde_json::Value> {
     let mut out = Vec::new();
@@ -348,10 +362,11 @@ pub fn render(src: &Sources, stream: &[Ev], o: &Opts) -> Result<Outputs, String>
         let xcli = writer::junit::Cli { verbose: Some(o.verbosity) };
         for ev in stream {
             let item = src.realize(ev);
-            feed(&mut wb, item.clone(), &bcli);
-            feed(&mut wl, item.clone(), &lcli);
-            feed(&mut wj, item.clone(), &cli::Empty);
-            feed(&mut wx, item, &xcli);
+            // (each reporter gets exactly one clone of the item, like the left arm of a `Tee`)
+            crate::rec::feed_ref(&mut wb, &item, &bcli);
+            crate::rec::feed_ref(&mut wl, &item, &lcli);
+            crate::rec::feed_ref(&mut wj, &item, &cli::Empty);
+            crate::rec::feed_ref(&mut wx, &item, &xcli);
         }
         Outputs { basic: b.text(), libtest: l.text(), json: j.text(), junit: x.text() }
     };
@@ -673,6 +688,7 @@ pub fn run(a: &ShardArgs) -> serde_json::Value {
                         "opts": {"path": o.path, "deco": format!("{:?}", o.deco), "show_output": o.libtest_show_output,
                                  "report_time": o.libtest_report_time, "verbosity": o.verbosity},
                         // the reports sit behind `Normalize`: their cases follow the normalised order
+                        "announced": announced(&stream),
                         "facts": fx, "attempts": attempts(&src, &{
                             let mut r = crate::h_norm::RefNorm::default();
                             for e in stream.iter() {
@@ -734,6 +750,7 @@ pub fn replay(j: &serde_json::Value) -> i32 {
                 "case_index": ci, "opts_index": oi,
                 "opts": {"path": o.path, "deco": format!("{:?}", o.deco), "show_output": o.libtest_show_output,
                          "report_time": o.libtest_report_time, "verbosity": o.verbosity},
+                "announced": announced(&stream),
                 "facts": facts(&src, &stream), "attempts": attempts(&src, &stream),
                 "basic": out.basic, "libtest": out.libtest, "json": out.json, "junit": out.junit,
             });
